@@ -28,7 +28,7 @@ func init() {
 	register(&PropertyDef{
 		ID:    "C04",
 		Title: "Group state depends only on the set of log entries (convergence, restart)",
-		Explanation: "Decides, on the type-checked SSA of every module implementation of go-orbit-db's StoreIndex.UpdateIndex that walks log entries (the per-entry body, the reset block and the post-index loop may each live in a helper that UpdateIndex calls, up to three calls deep; a return from a per-entry helper counts as moving on to the next entry): " +
+		Explanation: "Decides, on the type-checked SSA of every module implementation of go-orbit-db's StoreIndex.UpdateIndex that walks log entries (the per-entry body, the reset block and the post-index loop may each live in a helper that UpdateIndex calls, up to three calls deep; a return from a per-entry helper counts as moving on to the next entry; the walk may also be a range-over-func loop over slices.Backward/All/Values of the entry slice, whose synthetic yield function is the per-entry body; fields of a by-value (embedded) struct field of the index are fields of the index, and a whole-struct store of a freshly constructed value resets each of them; generic handlers are judged through their instantiations; closures inherit the locks held where they are created or by the helper that calls them): " +
 			"(D1) the entry sequence the index loop walks is the log's deterministic clock-sorted traversal (Log.Values() of the log being indexed, possibly through Slice/Copy/Reverse or a module helper), not the insertion-ordered entry map (GetEntries/RawHeads: Join inserts a replicated batch heads-first, so the order depends on how the entries arrived), not the heads alone and not only the newly added entries; " +
 			"(D2) the loop visits every element of that sequence (start, bound, stride 1) and its direction agrees with the winner policy of the handlers: handlers that keep the first event seen about a subject need a newest-first walk, handlers that overwrite need an oldest-first walk, and all per-subject fields must use the same policy; " +
 			"(D3) re-index idempotence: every field of the index struct written by a handler or post-index action is either assigned a fresh value in UpdateIndex before the loop (or cleared after it on every success path), or is written only in ways that repeat harmlessly: inserts into maps whose key type has value semantics (a key of pointer type, or of an interface type whose implementations are pointers, has identity semantics and a re-decoded key is a new member each time), accumulating writes (append to / arithmetic on the field's own content) only under a dominating 'already present' test on a never-reset value-keyed set the same code inserts into, no keep-the-first-value register fed by several write sites (or a scalar one) without reset, and an 'already there' test protecting an insert into never-reset state must be the presence test of the very key the protected code records in the tested set (a test of the set's size, of nil-ness or of another key makes the kept subject depend on what this index instance saw first); " +
@@ -202,6 +202,7 @@ type c04Index struct {
 	loops     []*c04Loop
 	entryLoop *c04Loop
 	entryIA   *ssa.IndexAddr
+	walk      *c04WalkAnchor
 
 	lockFields map[int]bool
 	cbFields   map[int]string // callback field -> phase in which UpdateIndex invokes it
@@ -222,19 +223,64 @@ type c04LoopSite struct {
 	Fn    *ssa.Function
 }
 
-func (ix *c04Index) fieldName(i int) string { return ix.St.Field(i).Name() }
+// Field ids: a top-level field of the index struct is its index i; a field j of a struct-typed
+// (by value, typically embedded) top-level field i is (i+1)*1000+j: promoted selectors are
+// those very fields.
+func (ix *c04Index) nestedStruct(i int) *types.Struct {
+	if i < 0 || i >= ix.St.NumFields() {
+		return nil
+	}
+	t := types.Unalias(ix.St.Field(i).Type())
+	if n, ok := t.(*types.Named); ok && n.Obj().Pkg() != nil && n.Obj().Pkg().Path() == "sync" {
+		return nil
+	}
+	st, _ := t.Underlying().(*types.Struct)
+	return st
+}
+
+func c04Flat(i, j int) int { return (i+1)*1000 + j }
+
+func (ix *c04Index) fieldName(id int) string {
+	if id >= 1000 {
+		i, j := id/1000-1, id%1000
+		if st := ix.nestedStruct(i); st != nil && j < st.NumFields() {
+			if ix.St.Field(i).Embedded() {
+				return st.Field(j).Name()
+			}
+			return ix.St.Field(i).Name() + "." + st.Field(j).Name()
+		}
+		return fmt.Sprintf("field#%d", id)
+	}
+	return ix.St.Field(id).Name()
+}
+
+// topField: the top-level field a field id belongs to.
+func c04TopField(id int) int {
+	if id >= 1000 {
+		return id/1000 - 1
+	}
+	return id
+}
 
 // rootField walks an address / value back to the field of the index struct it is rooted in.
 // direct reports that v is exactly &x.f for x of type *T.
 func (ix *c04Index) rootField(v ssa.Value) (field int, direct bool, base ssa.Value, ok bool) {
 	first := true
+	var prev *ssa.FieldAddr // the FieldAddr walked just before (applied directly to the current value)
+	prevFirst := false
 	for i := 0; i < 24 && v != nil; i++ {
 		switch x := v.(type) {
 		case *ssa.FieldAddr:
 			if c04PtrTo(x.X.Type(), ix.T) {
+				if prev != nil && prev.X == ssa.Value(x) && ix.nestedStruct(x.Field) != nil {
+					return c04Flat(x.Field, prev.Field), prevFirst, x.X, true
+				}
 				return x.Field, first, x.X, true
 			}
+			prev, prevFirst = x, first
 			v = x.X
+			first = false
+			continue
 		case *ssa.Field:
 			v = x.X
 		case *ssa.UnOp:
@@ -269,6 +315,7 @@ func (ix *c04Index) rootField(v ssa.Value) (field int, direct bool, base ssa.Val
 			return 0, false, nil, false
 		}
 		first = false
+		prev = nil
 	}
 	return 0, false, nil, false
 }
@@ -429,7 +476,7 @@ func (t *c04Tracer) scanUses(v ssa.Value) {
 		case key == "builtin.len", key == "builtin.cap":
 		case key == "slices.Reverse":
 			t.inplace++
-		case key == "slices.Clone":
+		case key == "slices.Clone", key == "slices.Backward", key == "slices.All", key == "slices.Values":
 		default:
 			if cal := staticCallee(cc); cal != nil && inModule(cal) && cal.Blocks != nil {
 				// a module helper that returns a sequence is traced through its result
@@ -1155,6 +1202,58 @@ func (ix *c04Index) derivesFromField(v ssa.Value, f int, depth int, seen map[ssa
 	return false
 }
 
+// c04FreshStruct: v is a struct value every field of which is fresh (zero, nil, an empty
+// container just made): the zero constant, a composite literal of fresh values, or the result
+// of a module constructor returning such a literal on every path.
+func c04FreshStruct(v ssa.Value, depth int) bool {
+	if v == nil || depth > 3 {
+		return false
+	}
+	switch x := v.(type) {
+	case *ssa.Const:
+		return x.Value == nil
+	case *ssa.UnOp:
+		if x.Op != token.MUL {
+			return false
+		}
+		al, ok := x.X.(*ssa.Alloc)
+		if !ok || al.Referrers() == nil {
+			return false
+		}
+		for _, r := range *al.Referrers() {
+			switch u := r.(type) {
+			case *ssa.FieldAddr:
+				if u.Referrers() == nil {
+					continue
+				}
+				for _, r2 := range *u.Referrers() {
+					st, ok := r2.(*ssa.Store)
+					if !ok || st.Addr != ssa.Value(u) || !c04IsFresh(st.Val) {
+						return false
+					}
+				}
+			case *ssa.UnOp, *ssa.DebugRef:
+			default:
+				return false
+			}
+		}
+		return true
+	case *ssa.Call:
+		cal := staticCallee(x.Common())
+		if cal == nil || !inModule(cal) || cal.Blocks == nil || cal.Signature.Results().Len() != 1 {
+			return false
+		}
+		rets := returnsOf(cal)
+		for _, r := range rets {
+			if !c04FreshStruct(retResults(r)[0], depth+1) {
+				return false
+			}
+		}
+		return len(rets) > 0
+	}
+	return false
+}
+
 func c04IsFresh(v ssa.Value) bool {
 	switch x := v.(type) {
 	case *ssa.Const:
@@ -1195,6 +1294,15 @@ func (ix *c04Index) collectWrites(fn *ssa.Function, phaseOfInstr func(ssa.Instru
 			case *ssa.Store:
 				f, direct, _, ok := ix.rootField(x.Addr)
 				if !ok {
+					continue
+				}
+				if st := ix.nestedStruct(f); direct && f < 1000 && st != nil {
+					// a store of a whole struct value writes every field of it
+					fresh := c04FreshStruct(x.Val, 0)
+					for j := 0; j < st.NumFields(); j++ {
+						w2 := &c04Write{Fn: fn, Instr: in, Field: c04Flat(f, j), Kind: "store", Fresh: fresh, Phase: phaseOfInstr(in)}
+						ix.writes = append(ix.writes, w2)
+					}
 					continue
 				}
 				wr = &c04Write{Fn: fn, Instr: in, Field: f, Val: x.Val}
@@ -1391,6 +1499,8 @@ func (ix *c04Index) run() bool {
 		field int
 		dyn   bool
 		fn    *ssa.Function
+		iter  string    // range-over-func: the iterator constructor whose result is called with fn as yield
+		seq   ssa.Value // ... and the slice it iterates
 	}
 	var sites []site
 	ix.dispatchIn = map[*ssa.Function][]ssa.CallInstruction{}
@@ -1431,6 +1541,25 @@ func (ix *c04Index) run() bool {
 				}
 				if _, isB := cc.Value.(*ssa.Builtin); isB {
 					continue
+				}
+				// range-over-func in UpdateIndex: seq(yield) with seq := slices.Backward(x) etc.
+				if mk, isCall := cc.Value.(*ssa.Call); isCall && fn == upd && len(cc.Args) == 1 {
+					if k := calleeKey(mk.Common()); (k == "slices.Backward" || k == "slices.All" || k == "slices.Values") && len(mk.Common().Args) == 1 {
+						if mc, isMC := cc.Args[0].(*ssa.MakeClosure); isMC {
+							if y, isF := mc.Fn.(*ssa.Function); isF && y.Blocks != nil {
+								sites = append(sites, site{ci: ci, top: ci, fn: y, iter: k, seq: mk.Common().Args[0]})
+								if !onPath[y] {
+									onPath[y] = true
+									if scan(y, ci, depth+1, onPath) {
+										ix.leads[y] = true
+										found = true
+									}
+									delete(onPath, y)
+								}
+								continue
+							}
+						}
+					}
 				}
 				if f, _, _, ok := ix.rootField(cc.Value); ok {
 					sites = append(sites, site{ci: ci, top: t, field: f, dyn: true})
@@ -1479,11 +1608,48 @@ func (ix *c04Index) run() bool {
 			}
 		}
 	}
+	if ix.entryIA != nil {
+		ix.walk = &c04WalkAnchor{Kind: "index", IA: ix.entryIA, Loop: ix.entryLoop, Seq: ix.entryIA.X}
+	} else {
+		for _, s := range sites {
+			if s.iter == "" || !ix.leads[s.fn] || len(s.fn.Params) == 0 {
+				continue
+			}
+			e := s.fn.Params[len(s.fn.Params)-1]
+			if !c04IsNamed(e.Type(), c04PkgLogIface, "IPFSLogEntry") {
+				continue
+			}
+			// the entry reaches a callback invocation (or a helper leading to one) in the loop body
+			t := taintFrom(s.fn, e)
+			feeds := false
+			for _, b := range s.fn.Blocks {
+				for _, in := range b.Instrs {
+					ci, ok := in.(ssa.CallInstruction)
+					if !ok {
+						continue
+					}
+					isDispatch := false
+					for _, d := range ix.dispatchIn[s.fn] {
+						isDispatch = isDispatch || d == ci
+					}
+					if cal := staticCallee(ci.Common()); !isDispatch && (cal == nil || !ix.leads[cal]) {
+						continue
+					}
+					for _, a := range ci.Common().Args {
+						feeds = feeds || t[a]
+					}
+				}
+			}
+			if feeds && ix.walk == nil {
+				ix.walk = &c04WalkAnchor{Kind: "rangefunc", Call: s.ci.(*ssa.Call), Yield: s.fn, Seq: s.seq, Iter: s.iter}
+			}
+		}
+	}
 	hasDyn := false
 	for _, s := range sites {
 		hasDyn = hasDyn || s.dyn
 	}
-	if ix.entryIA == nil {
+	if ix.walk == nil {
 		if !hasDyn && len(sites) == 0 {
 			return false // an index that derives nothing (no-op)
 		}
@@ -1502,17 +1668,7 @@ func (ix *c04Index) run() bool {
 		return true
 	}
 	c.analysed(upd)
-	loop := ix.entryLoop
-	phaseOfBlock := func(b *ssa.BasicBlock) string {
-		switch {
-		case loop.Body[b]:
-			return "loop"
-		case b.Dominates(loop.Header):
-			return "prologue"
-		default:
-			return "post"
-		}
-	}
+	phaseOfInstr := ix.walk.PhaseOf
 	// roots
 	cbFuncs := map[int]map[*ssa.Function]bool{}
 	for _, s := range sites {
@@ -1561,7 +1717,7 @@ func (ix *c04Index) run() bool {
 		ix.roots = append(ix.roots, c04Root{Fn: fn, Phase: phase, Via: via})
 	}
 	for _, s := range sites {
-		ph := phaseOfBlock(s.top.Block())
+		ph := phaseOfInstr(s.top.(ssa.Instruction))
 		if ph == "loop" && s.ci == s.top {
 			ix.loopSites = append(ix.loopSites, c04LoopSite{Instr: s.ci, Dyn: s.dyn, Fn: s.fn})
 		}
@@ -1610,7 +1766,7 @@ func (ix *c04Index) run() bool {
 	c.count("functions_invoked_around_the_loop", nPost)
 
 	// writes
-	ix.collectWrites(upd, func(in ssa.Instruction) string { return phaseOfBlock(in.Block()) })
+	ix.collectWrites(upd, phaseOfInstr)
 	var fns []*ssa.Function
 	for f := range ix.phaseOf {
 		fns = append(fns, f)
@@ -1647,7 +1803,7 @@ func (ix *c04Index) run() bool {
 
 func (ix *c04Index) sources() ([]c04Src, *c04Tracer) {
 	t := &c04Tracer{ix: ix, seenUse: map[ssa.Value]bool{}}
-	srcs := t.trace(ix.entryIA.X, nil, true, 0, 0, map[ssa.Value]bool{})
+	srcs := t.trace(ix.walk.Seq, nil, true, 0, 0, map[ssa.Value]bool{})
 	return srcs, t
 }
 
@@ -1656,12 +1812,12 @@ func (ix *c04Index) ruleD1() {
 	base := fnName(ix.Update)
 	srcs, t := ix.sources()
 	if len(srcs) == 0 {
-		c.undecided("D1", base+"+entries-source", ix.entryIA.Pos(), "origin of the walked entry slice not found")
+		c.undecided("D1", base+"+entries-source", ix.walk.Pos(), "origin of the walked entry slice not found")
 		return
 	}
 	seen := map[string]bool{}
 	for _, s := range srcs {
-		pos := ix.entryIA.Pos()
+		pos := ix.walk.Pos()
 		if s.Pos.IsValid() {
 			pos = s.Pos
 		}
@@ -1766,8 +1922,8 @@ func (ix *c04Index) ruleD5() map[int]string {
 func (ix *c04Index) ruleD2(pol map[int]string) {
 	c := ix.c
 	upd := ix.Update
-	wk := c04AnalyseWalk(ix.entryIA, ix.entryLoop)
-	pos := ix.entryIA.Pos()
+	wk := ix.walk.Walk()
+	pos := ix.walk.Pos()
 	if !wk.Known {
 		c.undecided("D2", fnName(upd)+"+walk-covers-log", pos, "loop shape not modelled: %s", wk.Why)
 		c.undecided("D2", fnName(upd)+"+walk-direction", pos, "loop shape not modelled: %s", wk.Why)
@@ -1999,6 +2155,18 @@ func (ix *c04Index) ruleD4() {
 			state[wr.Field] = true
 		}
 	}
+	topState := map[int]bool{} // top-level fields holding state (directly or in a by-value struct)
+	for f := range state {
+		topState[c04TopField(f)] = true
+	}
+	// generic functions: the instantiations are what runs; an origin with type parameters has
+	// no caller of its own and is judged through them
+	hasInstance := map[*ssa.Function]bool{}
+	for _, fn := range w.ModFuncs {
+		if o := fn.Origin(); o != nil && o != fn && fn.Blocks != nil {
+			hasInstance[o] = true
+		}
+	}
 	li := w.locks()
 	cg := w.callGraph()
 	holds := func(s lockSet, mode byte) bool {
@@ -2024,6 +2192,11 @@ func (ix *c04Index) ruleD4() {
 		if holds(li.localOf(in.Parent())[in], mode) {
 			return true
 		}
+		// the shared lockset analysis knows the locks held on entry through static callers and
+		// through helpers that call a func parameter with a lock held (withLock(func()) idiom)
+		if holds(li.heldAt(in), mode) {
+			return true
+		}
 		return heldAtEntry(in.Parent(), mode)
 	}
 	heldAtEntry = func(fn *ssa.Function, mode byte) bool {
@@ -2040,6 +2213,9 @@ func (ix *c04Index) ruleD4() {
 		res := true
 		n := 0
 		for _, cs := range cg.callers[fn] {
+			if hasInstance[cs.Caller] {
+				continue // the generic origin never runs; its instantiations are callers too
+			}
 			n++
 			if !heldAtSite(cs.Instr.(ssa.Instruction), mode) {
 				res = false
@@ -2091,23 +2267,35 @@ func (ix *c04Index) ruleD4() {
 	}
 	nFuncs := 0
 	for _, fn := range w.ModFuncs {
+		if hasInstance[fn] {
+			continue
+		}
 		var accs []acc
 		for _, b := range fn.Blocks {
 			for _, in := range b.Instrs {
 				fa, ok := in.(*ssa.FieldAddr)
-				if !ok || !c04PtrTo(fa.X.Type(), ix.T) || !state[fa.Field] {
+				if !ok || !c04PtrTo(fa.X.Type(), ix.T) || !topState[fa.Field] {
 					continue
 				}
 				if _, fresh := fa.X.(*ssa.Alloc); fresh {
 					continue // object under construction, not yet shared
 				}
 				wr := false
-				if fa.Referrers() != nil {
-					for _, r := range *fa.Referrers() {
+				var written func(addr ssa.Value, depth int)
+				written = func(addr ssa.Value, depth int) {
+					if addr.Referrers() == nil || depth > 2 {
+						return
+					}
+					for _, r := range *addr.Referrers() {
 						switch u := r.(type) {
 						case *ssa.Store:
-							if u.Addr == ssa.Value(fa) {
+							if u.Addr == addr {
 								wr = true
+							}
+						case *ssa.FieldAddr:
+							// a field of an embedded / by-value struct field
+							if u.X == addr {
+								written(u, depth+1)
 							}
 						case *ssa.UnOp:
 							// a map loaded from the field and updated / cleared
@@ -2128,6 +2316,7 @@ func (ix *c04Index) ruleD4() {
 						}
 					}
 				}
+				written(fa, 0)
 				accs = append(accs, acc{in, fa.Field, wr})
 			}
 		}
@@ -2177,7 +2366,6 @@ func (ix *c04Index) ruleD4() {
 func (ix *c04Index) ruleD6() {
 	c := ix.c
 	upd := ix.Update
-	loop := ix.entryLoop
 	reset := ix.resetKinds()
 	// blocks in which the handlers run
 	writers := map[*ssa.Function]bool{}
@@ -2214,7 +2402,7 @@ func (ix *c04Index) ruleD6() {
 		next     func(*ssa.BasicBlock) bool // reaching this block ends the treatment of the entry
 		handlers map[*ssa.BasicBlock]bool
 	}
-	scopes := []scope{{fn: upd, in: func(b *ssa.BasicBlock) bool { return loop.Body[b] }, next: func(b *ssa.BasicBlock) bool { return b == loop.Header }, handlers: handlerBlocks}}
+	scopes := []scope{{fn: upd, in: ix.walk.InBody, next: func(b *ssa.BasicBlock) bool { return ix.walk.Kind == "index" && b == ix.walk.Loop.Header }, handlers: handlerBlocks}}
 	seenScope := map[*ssa.Function]bool{upd: true}
 	var addHelper func(fn *ssa.Function, depth int)
 	addHelper = func(fn *ssa.Function, depth int) {
@@ -2377,8 +2565,8 @@ func (ix *c04Index) ruleD7() {
 			c.fail("D7", construct, pos, "the entry sequence (%s) is read before %s is write-held: two overlapping UpdateIndex calls (local append and replication/load are not serialised by go-orbit-db) can take their snapshots in one order and write the state in the other, leaving the state of an OLDER log than the store holds", s.What, strings.Join(classes, "/"))
 			continue
 		}
-		if !held(ix.entryIA) {
-			c.fail("D7", construct, ix.entryIA.Pos(), "the entry sequence (%s) is read with %s write-held but the walk over it is not", s.What, strings.Join(classes, "/"))
+		if !held(ix.walk.Site()) {
+			c.fail("D7", construct, ix.walk.Pos(), "the entry sequence (%s) is read with %s write-held but the walk over it is not", s.What, strings.Join(classes, "/"))
 			continue
 		}
 		// a release between the snapshot and the walk
@@ -2399,7 +2587,7 @@ func (ix *c04Index) ruleD7() {
 						mine = true
 					}
 				}
-				if mine && instrReaches(s.Site, in) && instrReaches(in, ix.entryIA) && !ix.entryLoop.Body[b] {
+				if mine && instrReaches(s.Site, in) && instrReaches(in, ix.walk.Site()) && !ix.walk.InBody(b) {
 					released = c.pos(posOf(in))
 				}
 			}
@@ -2880,14 +3068,9 @@ func (ix *c04Index) stateReadSeeds(fn *ssa.Function, fields func(int) bool) []ss
 func (ix *c04Index) ruleD10() {
 	c := ix.c
 	upd := ix.Update
-	hdr := ix.entryLoop.Header
 	construct := fnName(upd) + "+full-rescan"
 	// success returns reachable from the entry without entering the entry loop
-	cut := map[edge]bool{}
-	for _, p := range hdr.Preds {
-		cut[edge{p, hdr}] = true
-	}
-	r := reach(upd.Blocks[0], cut)
+	r := ix.walk.ReachWithoutWalk(upd)
 	var bypass []*ssa.Return
 	for _, ret := range returnsOf(upd) {
 		if r[ret.Block()] && isSuccessReturn(ret) {
@@ -2909,7 +3092,7 @@ func (ix *c04Index) ruleD10() {
 	}
 	var seeds []ssa.Value
 	for _, sd := range ix.stateReadSeeds(upd, func(f int) bool { return state[f] }) {
-		if in, ok := sd.(ssa.Instruction); ok && r[in.Block()] && !ix.entryLoop.Body[in.Block()] {
+		if in, ok := sd.(ssa.Instruction); ok && r[in.Block()] && !ix.walk.InBody(in.Block()) {
 			seeds = append(seeds, sd)
 		}
 	}
@@ -2917,7 +3100,7 @@ func (ix *c04Index) ruleD10() {
 	for _, b := range upd.Blocks {
 		for _, in := range b.Instrs {
 			if call, ok := in.(*ssa.Call); ok {
-				if !r[b] || ix.entryLoop.Body[b] {
+				if !r[b] || ix.walk.InBody(b) {
 					continue
 				}
 				if cal := staticCallee(call.Common()); cal != nil && inModule(cal) && len(call.Common().Args) > 0 && c04PtrTo(call.Common().Args[0].Type(), ix.T) && call.Type() != nil {
@@ -2932,7 +3115,7 @@ func (ix *c04Index) ruleD10() {
 	var remembered []string
 	for _, ret := range bypass {
 		for _, b := range upd.Blocks {
-			if ix.entryLoop.Body[b] {
+			if ix.walk.InBody(b) {
 				continue
 			}
 			ifi, ok := b.Instrs[len(b.Instrs)-1].(*ssa.If)
@@ -3251,4 +3434,95 @@ func (ix *c04Index) units(inPhase func(string) bool, relevant func(*ssa.Function
 	}
 	sort.Slice(out, func(i, j int) bool { return out[i].Root.String() < out[j].Root.String() })
 	return out
+}
+
+// ---------------------------------------------------------------------------
+// the walk over the log entries: either an indexed loop of UpdateIndex over the entry slice,
+// or a range-over-func loop over slices.Backward / slices.All / slices.Values of it (the loop
+// body is then the synthetic yield function, called by the iterator once per entry:
+// `continue` is `return true`).
+
+type c04WalkAnchor struct {
+	Kind  string // index | rangefunc
+	IA    *ssa.IndexAddr
+	Loop  *c04Loop
+	Call  *ssa.Call     // rangefunc: the call seq(yield) in UpdateIndex
+	Yield *ssa.Function // rangefunc: the loop body
+	Seq   ssa.Value     // the slice that is walked
+	Iter  string        // rangefunc: slices.Backward | slices.All | slices.Values
+}
+
+func (a *c04WalkAnchor) Site() ssa.Instruction {
+	if a.Kind == "index" {
+		return a.IA
+	}
+	return a.Call
+}
+
+func (a *c04WalkAnchor) Pos() token.Pos { return posOf(a.Site()) }
+
+// InBody: block b of UpdateIndex belongs to the per-entry code.
+func (a *c04WalkAnchor) InBody(b *ssa.BasicBlock) bool {
+	return a.Kind == "index" && a.Loop.Body[b]
+}
+
+// PhaseOf: position of an instruction of UpdateIndex relative to the walk.
+func (a *c04WalkAnchor) PhaseOf(in ssa.Instruction) string {
+	b := in.Block()
+	if a.Kind == "index" {
+		switch {
+		case a.Loop.Body[b]:
+			return "loop"
+		case b.Dominates(a.Loop.Header):
+			return "prologue"
+		}
+		return "post"
+	}
+	sb := a.Call.Block()
+	if b == sb {
+		for _, x := range b.Instrs {
+			if x == in {
+				if in == ssa.Instruction(a.Call) {
+					return "loop"
+				}
+				return "prologue"
+			}
+			if x == ssa.Instruction(a.Call) {
+				return "post"
+			}
+		}
+	}
+	if b.Dominates(sb) {
+		return "prologue"
+	}
+	return "post"
+}
+
+// ReachWithoutWalk: blocks of UpdateIndex reachable from its entry without starting the walk.
+func (a *c04WalkAnchor) ReachWithoutWalk(upd *ssa.Function) map[*ssa.BasicBlock]bool {
+	cut := map[edge]bool{}
+	if a.Kind == "index" {
+		for _, p := range a.Loop.Header.Preds {
+			cut[edge{p, a.Loop.Header}] = true
+		}
+		return reach(upd.Blocks[0], cut)
+	}
+	sb := a.Call.Block()
+	for _, x := range sb.Succs {
+		cut[edge{sb, x}] = true
+	}
+	r := reach(upd.Blocks[0], cut)
+	delete(r, sb) // what follows the call in its own block comes after the walk
+	return r
+}
+
+func (a *c04WalkAnchor) Walk() c04Walk {
+	if a.Kind == "index" {
+		return c04AnalyseWalk(a.IA, a.Loop)
+	}
+	wk := c04Walk{Known: true, Full: true, Dir: 1}
+	if a.Iter == "slices.Backward" {
+		wk.Dir = -1
+	}
+	return wk
 }
